@@ -83,10 +83,14 @@ def run(repo, res):
     for cls, r in sorted(R.continuity_records(repo).items()):
         for path, line in sorted(r['dropped'].items()):
             stmt_block = path.split('.')[-1].split('[')[0] in ('body', 'orelse', 'finalbody')
-            if not stmt_block:
+            # round 13: an expression child of a *statement* (the iterable of a for, a with item, a test) whose exit region is
+            # dropped loses the walrus bindings made inside it just the same: they are reported unused (false W01). The
+            # children of comprehensions stay with C01-R5 (one root cause, recorded there).
+            of_stmt = isinstance(getattr(ast, cls, None), type) and issubclass(getattr(ast, cls), ast.stmt)
+            if not (stmt_block or of_stmt):
                 continue
             res.check('C02-R5', '%s %s exit dropped' % (R.method_name(repo, cls), path), False, line[0], line[1],
-                      'the region left current after the statement block %s.%s is discarded: bindings made in regions created inside the block are never associated with later reads (false W01, go-to-definition misses them)' % (cls, path))
+                      'the region left current after %s.%s is discarded: bindings made in regions created inside it are never associated with later reads (false W01, go-to-definition misses them)' % (cls, path))
     res.ob('C02-R5', 'statement-block continuity', True, sample='every statement block\'s exit region is consumed by a join, the next block or the scope')
     brecs = R.binder_records(repo)
     for (cls, kind, path), r in sorted(brecs.items()):
